@@ -4,7 +4,7 @@
 From Coq Require Import List NArith ZArith Bool Lia.
 From SV.Num Require Import NumGrammar.
 From SV.Enc Require Import Prims Ty Val IR Compile JsonLite MapSort VM StdEnc.
-From SV.Enc Require Import Sim Frag Steps.
+From SV.Enc Require Import TyLemmas Sim Frag Steps.
 Import ListNotations.
 Local Open Scope nat_scope.
 
@@ -17,6 +17,7 @@ Fixpoint need (v : val) : nat :=
   | VPtr (Some x) => S (need x)
   | VSlice (Some l) => S ((fix mx (l : list val) : nat := match l with [] => 0 | x :: r => Nat.max (need x) (mx r) end) l)
   | VArr l => S ((fix mx (l : list val) : nat := match l with [] => 0 | x :: r => Nat.max (need x) (mx r) end) l)
+  | VStruct l => S ((fix mx (l : list val) : nat := match l with [] => 0 | x :: r => Nat.max (need x) (mx r) end) l)
   | _ => 0
   end.
 
@@ -33,13 +34,12 @@ Section Main.
   Variable P : prims.
   Variable e : env.
   Variable co : copts.
-  Variable flg : N.
 
   (* what the theorem needs of the executor and of the option word *)
   Hypothesis Hi : forall z, (- 2 ^ 63 <= z < 2 ^ 63)%Z -> p_i64toa P z = itoa z.
   Hypothesis Hu : forall z, (0 <= z < 2 ^ 64)%Z -> p_u64toa P z = utoa (Z.to_N z).
   Hypothesis Hq : forall s d, p_quote P s d = quote s d.
-  Hypothesis Hflg : has_opts flg (b_empty_arr P) = false.
+  Hypothesis Hbr : b_recurse P <> b_empty_arr P.
 
   (* finite floats whose digit oracle the executor prints unchanged *)
   Definition fok (k : kind) (bits : N) (txt : option bytes) : Prop :=
@@ -51,12 +51,13 @@ Section Main.
   Notation steps := (steps P e co).
 
   Definition code_ok (t : ty) (c : list instr) (pc : nat) : Prop :=
-    forall prog r rest o k rqs v fuel addr res,
+    forall flg prog r rest o k rqs v fuel addr res,
+      has_opts flg (b_empty_arr P) = false ->
       code_at prog pc c -> loc e (rp r) t v -> has_type t v ->
       std_enc e Qraw fuel t v addr false = SOk res ->
       (N.of_nat (length k + need v) <= p_stack P)%N ->
-      exists n o', steps n (mks prog pc flg r rest o k rqs) (mks prog (pc + length c) flg r rest o' k rqs) /\
-                   out_bytes o' = out_bytes o ++ res.
+      exists n o' rqs', steps n (mks prog pc flg r rest o k rqs) (mks prog (pc + length c) flg r rest o' k rqs') /\
+                        out_bytes o' = out_bytes o ++ res.
 
   Lemma as_signed_id : forall w z, (0 < w)%N -> (- 2 ^ (Z.of_N w - 1) <= z < 2 ^ (Z.of_N w - 1))%Z -> as_signed w z = z.
   Proof.
@@ -78,9 +79,9 @@ Section Main.
   Proof.
     intros k cf tab cpv sp pc pv c Hk Htab Hc.
     destruct cf as [|cf]; [discriminate Hc|]. cbn [compileOne] in Hc.
-    rewrite (mem_ty_false _ _ (F_prim k Hk) Htab) in Hc.
-    rewrite (frag_no_marshaler e _ pc pv (F_prim k Hk)) in Hc.
-    intros prog r rest o kk rqs v fuel addr res Hcode Hloc Hty Hstd Hstk.
+    rewrite (mem_ty_false _ _ Htab) in Hc.
+    rewrite (frag_no_marshaler e e (TPrim k) pc pv Hk) in Hc.
+    intros flg prog r rest o kk rqs v fuel addr res Hflg Hcode Hloc Hty Hstd Hstk.
     assert (Hleaf : leaf e (rp r) = Some (TPrim k, strip v)).
     { apply (loc_leaf e _ _ _ Hloc); [reflexivity|]. destruct k; try discriminate Hk; cbn; lia. }
     destruct fuel as [|fuel]; [discriminate Hstd|].
@@ -90,11 +91,11 @@ Section Main.
     assert (Hn3 : ptr_implements e (TPrim k) MJson = false) by reflexivity.
     assert (Hn4 : ptr_implements e (TPrim k) MText = false) by reflexivity.
     rewrite Hn1, Hn2, Hn3, Hn4, !andb_false_r in Hstd.
-    inversion Hty as [b0 | k0 z Hr | k0 bits txt Hk0 Hfok | s0 | | | | | ]; subst; cbn [strip] in *.
+    inversion Hty as [b0 | k0 z Hr | k0 bits txt Hk0 Hfok | s0 | | | | |  | ]; subst; cbn [strip] in *.
     - (* bool *)
       cbn in Hc. inversion Hc; subst. destruct (code_at_cons _ _ _ _ Hcode) as [Hins _].
       cbn in Hstd. inversion Hstd; subst.
-      cbn [length]. rewrite Nat.add_1_r. eexists 1, _. split.
+      cbn [length]. rewrite Nat.add_1_r. eexists 1, _, rqs. split.
       + apply steps_one. unfold VM.step, mks, mkf. cbn [frames fprog fpc]. rewrite Hins. cbn [fregs]. rewrite Hleaf. reflexivity.
       + rewrite out_cons. reflexivity.
     - (* integers *)
@@ -102,7 +103,7 @@ Section Main.
       destruct k; try discriminate Hk; cbn [int_bits] in Hr; try contradiction;
         cbn in Hc; inversion Hc; subst; destruct (code_at_cons _ _ _ _ Hcode) as [Hins _];
         cbn in Hstd; inversion Hstd; subst;
-        (cbn [length]; rewrite Nat.add_1_r; eexists 1, _; split;
+        (cbn [length]; rewrite Nat.add_1_r; eexists 1, _, rqs; split;
          [ apply steps_one; unfold VM.step, mks, mkf; cbn [frames fprog fpc]; rewrite Hins; cbn [fregs]; rewrite Hleaf; reflexivity
          | rewrite out_cons; f_equal;
            first [ rewrite as_signed_id by (first [lia | exact Hr]); apply Hi; cbn in Hr; lia
@@ -112,17 +113,17 @@ Section Main.
       destruct Hk0 as [-> | ->]; cbn in Hc; inversion Hc; subst; destruct (code_at_cons _ _ _ _ Hcode) as [Hins _];
         cbn in Hstd; inversion Hstd; subst.
       + destruct (H32 eq_refl) as [Hnan Hp].
-        cbn [length]; rewrite Nat.add_1_r; eexists 1, _; split;
+        cbn [length]; rewrite Nat.add_1_r; eexists 1, _, rqs; split;
          [ apply steps_one; unfold VM.step, mks, mkf; cbn [frames fprog fpc]; rewrite Hins; cbn [fregs]; rewrite Hleaf, Hnan; reflexivity
          | rewrite out_cons, Hp; reflexivity ].
       + destruct (H64 eq_refl) as [Hnan Hp].
-        cbn [length]; rewrite Nat.add_1_r; eexists 1, _; split;
+        cbn [length]; rewrite Nat.add_1_r; eexists 1, _, rqs; split;
          [ apply steps_one; unfold VM.step, mks, mkf; cbn [frames fprog fpc]; rewrite Hins; cbn [fregs]; rewrite Hleaf, Hnan; reflexivity
          | rewrite out_cons, Hp; reflexivity ].
     - (* string *)
       cbn in Hc. inversion Hc; subst. destruct (code_at_cons _ _ _ _ Hcode) as [Hins _].
       cbn in Hstd. inversion Hstd; subst.
-      cbn [length]. rewrite Nat.add_1_r. eexists 1, _. split.
+      cbn [length]. rewrite Nat.add_1_r. eexists 1, _, rqs. split.
       + apply steps_one. unfold VM.step, mks, mkf. cbn [frames fprog fpc]. rewrite Hins. cbn [fregs]. rewrite Hleaf. reflexivity.
       + rewrite out_cons, Hq. reflexivity.
   Qed.
@@ -143,15 +144,15 @@ Section Main.
   Proof. destruct r; reflexivity. Qed.
 
   (* ---- pointers *)
-  Lemma ptr_ok : forall el, frag el ->
+  Lemma ptr_ok : forall el, frag e el ->
     (forall cf tab cpv sp pc pv c, tab_above tab el -> compileOne e co cf tab cpv sp pc el pv = COk c -> code_ok el c pc) ->
     forall cf tab cpv sp pc pv c, tab_above tab (TPtr el) ->
       compileOne e co cf tab cpv sp pc (TPtr el) pv = COk c -> code_ok (TPtr el) c pc.
   Proof.
     intros el Hel IH cf tab cpv sp pc pv c Htab Hc.
     destruct cf as [|cf]; [discriminate Hc|]. cbn [compileOne] in Hc.
-    rewrite (mem_ty_false _ _ (F_ptr el Hel) Htab) in Hc.
-    rewrite (frag_no_marshaler e _ pc pv (F_ptr el Hel)) in Hc.
+    rewrite (mem_ty_false _ _ Htab) in Hc.
+    rewrite (frag_no_marshaler e e (TPtr el) pc pv Hel) in Hc.
     unfold compileOps in Hc. cbn [rkind_of unfold] in Hc.
     unfold compileNil, cbind, compilePtrBody, Tag, one in Hc. cbn [elem_of unfold] in Hc.
     destruct (N.of_nat sp <? MaxStack)%N; [|discriminate Hc].
@@ -185,7 +186,7 @@ Section Main.
       change ([OP_is_nil (pc + length ce + 5); OP_save; OP_deref] ++ ce) with (OP_is_nil (pc + length ce + 5) :: OP_save :: OP_deref :: ce).
       exact Hn. }
     clear Ec0 Ec1.
-    intros prog r rest o kk rqs v fuel addr res Hcode Hloc Hty Hstd Hstk.
+    intros flg prog r rest o kk rqs v fuel addr res Hflg Hcode Hloc Hty Hstd Hstk.
     assert (Hleaf : leaf e (rp r) = Some (TPtr el, strip v)).
     { apply (loc_leaf e _ _ _ Hloc); [reflexivity|cbn; lia]. }
     rewrite Hlen.
@@ -196,13 +197,13 @@ Section Main.
     assert (I4 := code_nth _ _ _ _ _ Hcode N4).
     assert (I5 := code_nth _ _ _ _ _ Hcode N5).
     destruct fuel as [|fuel]; [discriminate Hstd|]. cbn [std_enc] in Hstd.
-    assert (Hn1 : implements e (TPtr el) MJson = false) by (destruct Hel; reflexivity).
-    assert (Hn2 : implements e (TPtr el) MText = false) by (destruct Hel; reflexivity).
+    assert (Hn1 : implements e (TPtr el) MJson = false) by (apply (frag_implements e e (TPtr el) MJson Hel)).
+    assert (Hn2 : implements e (TPtr el) MText = false) by (apply (frag_implements e e (TPtr el) MText Hel)).
     rewrite Hn1, Hn2 in Hstd. cbn [rkind_of unfold negb andb] in Hstd.
-    inversion Hty as [ | | | | el0 | el0 x Hx | | | ]; subst; cbn [strip] in *.
+    inversion Hty as [ | | | | el0 | el0 x Hx | | |  | ]; subst; cbn [strip] in *.
     - (* nil pointer *)
       injection Hstd as <-.
-      eexists 2, _. split.
+      eexists 2, _, rqs. split.
       + eapply steps_S; [eapply step_is_nil; [exact I0|exact Hleaf|reflexivity]|]. cbn [word0_zero].
         replace (pc + length ce + 5) with (pc + (5 + length ce)) by lia.
         eapply steps_S; [apply step_null; exact I5|].
@@ -211,12 +212,12 @@ Section Main.
     - (* pointer to x *)
       assert (Hsave : (N.of_nat (length kk) < p_stack P)%N) by (cbn [need] in Hstk; lia).
       assert (Cce : code_at prog (pc + 1 + 2) ce) by (replace (pc + 1 + 2) with (pc + 3) by lia; apply Cce0; exact Hcode).
-      destruct (Hce prog (set_p r (PAt el x 0)) rest o (r :: kk) rqs x fuel true res Cce) as (n & o' & Hst & Ho).
+      destruct (Hce flg prog (set_p r (PAt el x 0)) rest o (r :: kk) rqs x fuel true res Hflg Cce) as (n & o' & rq' & Hst & Ho).
       { cbn [rp set_p]. apply loc_root. }
       { exact Hx. }
       { exact Hstd. }
       { cbn [need length] in *. lia. }
-      eexists (3 + n + 2), o'. split; [|exact Ho].
+      eexists (3 + n + 2), o', rq'. split; [|exact Ho].
       eapply steps_S; [eapply step_is_nil; [exact I0|exact Hleaf|reflexivity]|]. cbn [word0_zero].
       replace (S pc) with (pc + 1) by lia.
       eapply steps_S; [apply step_save; [exact I1|exact Hsave]|].
@@ -279,18 +280,18 @@ Section Main.
     destruct (enc_list_inv _ _ _ _ _ _ Eb) as (a & tb' & Ha & Ht & ->). exists a, tb'. repeat split; assumption.
   Qed.
 
-  Lemma std_enc_array : forall f n el l addr q, frag el ->
+  Lemma std_enc_array : forall f n el l addr q, frag e el ->
     std_enc e Qraw (S f) (TArray n el) (VArr l) addr q =
     sbind (enc_list f el addr l) (fun items => SOk ([91%N] ++ items ++ [93%N])).
   Proof. intros. destruct addr; reflexivity. Qed.
 
-  Lemma std_enc_slice : forall f el l addr q, frag el -> is_simple_byte e el = false ->
+  Lemma std_enc_slice : forall f el l addr q, frag e el -> is_simple_byte e el = false ->
     std_enc e Qraw (S f) (TSlice el) (VSlice (Some l)) addr q =
     sbind (enc_list f el true l) (fun items => SOk ([91%N] ++ items ++ [93%N])).
   Proof.
     intros f el l addr q Hel Hsb.
-    destruct Hel as [k Hk|x Hx|x Hx|n x Hx]; destruct addr; try reflexivity;
-      destruct k; try discriminate Hk; try discriminate Hsb; reflexivity.
+    destruct el as [k|n x|x|kt x|x|ik|sz ph fs|id]; cbn in Hel; try contradiction; destruct addr; try reflexivity;
+      destruct k; try discriminate Hel; try discriminate Hsb; reflexivity.
   Qed.
 
   Lemma skipn_nth : forall (A : Type) (l : list A) i, i < length l -> exists x, nth_error l i = Some x /\ skipn i l = x :: skipn (S i) l.
@@ -305,27 +306,28 @@ Section Main.
 
   Section Seq.
     Variable el : ty.
-    Hypothesis Hel : frag el.
+    Hypothesis Hel : frag e el.
     Hypothesis IHel : forall cf tab cpv sp pc pv c, tab_above tab el ->
       compileOne e co cf tab cpv sp pc el pv = COk c -> code_ok el c pc.
 
     (* the items after the first one of an array: ",x" per item, cursor restored by OP_load *)
     Lemma arrayRest_ok : forall n cf tab cpv i sp pc code, tab_above tab el ->
       arrayRest e (compileOne e co cf) tab cpv n i sp pc el = COk code ->
-      forall prog r rest o kk rqs l fuel addr tb,
+      forall flg prog r rest o kk rqs l fuel addr tb,
+        has_opts flg (b_empty_arr P) = false ->
         code_at prog pc code ->
         loc e (rp r) (TArray (length l) el) (VArr l) ->
         (forall x, In x l -> has_type el x) ->
         N.to_nat i + n = length l ->
         tail_items fuel el addr (skipn (N.to_nat i) l) = SOk tb ->
         (N.of_nat (S (length kk) + need_list l) <= p_stack P)%N ->
-        exists m o', steps m (mks prog pc flg r rest o (r :: kk) rqs) (mks prog (pc + length code) flg r rest o' (r :: kk) rqs)
+        exists m o' rqs', steps m (mks prog pc flg r rest o (r :: kk) rqs) (mks prog (pc + length code) flg r rest o' (r :: kk) rqs')
                      /\ out_bytes o' = out_bytes o ++ tb.
     Proof.
-      induction n as [|n IHn]; intros cf tab cpv i sp pc code Htab Hc prog r rest o kk rqs l fuel addr tb Hcode Hloc Hty Hlen Htl Hstk.
+      induction n as [|n IHn]; intros cf tab cpv i sp pc code Htab Hc flg prog r rest o kk rqs l fuel addr tb Hflg Hcode Hloc Hty Hlen Htl Hstk.
       - cbn [arrayRest] in Hc. injection Hc as <-.
         rewrite skipn_all2 in Htl by lia. cbn in Htl. injection Htl as <-.
-        exists 0, o. split; [cbn [length]; rewrite Nat.add_0_r; apply steps_O|rewrite app_nil_r; reflexivity].
+        exists 0, o, rqs. split; [cbn [length]; rewrite Nat.add_0_r; apply steps_O|rewrite app_nil_r; reflexivity].
       - cbn [arrayRest] in Hc. unfold cbind, one in Hc.
         destruct (compileOne e co cf tab cpv (sp + 1) (pc + 2) el cpv) as [ci|] eqn:Eci; [|discriminate Hc].
         destruct (arrayRest e (compileOne e co cf) tab cpv n (i + 1)%N sp (pc + 2 + length ci + 1) el) as [cr|] eqn:Ecr; [|discriminate Hc].
@@ -346,21 +348,21 @@ Section Main.
         { rewrite <- (Nat.add_0_r (pc + 2 + length ci)). eapply code_nth; [exact H2|reflexivity]. }
         pose proof (code_at_app_r prog (pc + 2 + length ci) [OP_load] cr H2) as Ccr. cbn [length] in Ccr.
         (* the item *)
-        destruct (IHel cf tab cpv (sp + 1) (pc + 2) cpv ci Htab Eci prog (set_p r (padd (rp r) (i * sizeof e el))) rest ([44%N] :: o) (r :: kk) rqs x fuel addr a Cci)
-          as (m1 & o1 & Hst1 & Ho1).
+        destruct (IHel cf tab cpv (sp + 1) (pc + 2) cpv ci Htab Eci flg prog (set_p r (padd (rp r) (i * sizeof e el))) rest ([44%N] :: o) (r :: kk) rqs x fuel addr a Hflg Cci)
+          as (m1 & o1 & rq1 & Hst1 & Ho1).
         { cbn [rp set_p]. rewrite <- (N2Nat.id i). eapply loc_elem; [exact Hloc|reflexivity|exact Hnth]. }
         { apply Hty. exact Hin. }
         { exact Ha. }
         { pose proof (need_list_in _ _ Hin). cbn [length]. lia. }
         (* the remaining items *)
-        destruct (IHn cf tab cpv (i + 1)%N sp (pc + 2 + length ci + 1) cr Htab Ecr prog r rest o1 kk rqs l fuel addr tb' Ccr Hloc Hty)
-          as (m2 & o2 & Hst2 & Ho2).
+        destruct (IHn cf tab cpv (i + 1)%N sp (pc + 2 + length ci + 1) cr Htab Ecr flg prog r rest o1 kk rq1 l fuel addr tb' Hflg Ccr Hloc Hty)
+          as (m2 & o2 & rq2 & Hst2 & Ho2).
         { lia. }
         { replace (N.to_nat (i + 1)) with (S (N.to_nat i)) by lia. exact Htl'. }
         { exact Hstk. }
         match goal with |- context [pc + length ?cc] =>
           replace (pc + length cc) with (pc + 2 + length ci + 1 + length cr) by (cbn [length]; rewrite app_length; cbn [length]; lia) end.
-        exists (2 + m1 + 1 + m2), o2. split.
+        exists (2 + m1 + 1 + m2), o2, rq2. split.
         + eapply steps_S; [apply step_byte; exact I0|].
           replace (S pc) with (pc + 1) by lia.
           eapply steps_S; [apply step_index; exact I1|].
@@ -380,15 +382,15 @@ Section Main.
     Proof.
       intros n cf tab cpv sp pc pv c Htab Hc.
       destruct cf as [|cf]; [discriminate Hc|]. cbn [compileOne] in Hc.
-      rewrite (mem_ty_false _ _ (F_arr n el Hel) Htab) in Hc.
-      rewrite (frag_no_marshaler e _ pc pv (F_arr n el Hel)) in Hc.
+      rewrite (mem_ty_false _ _ Htab) in Hc.
+      rewrite (frag_no_marshaler e e (TArray n el) pc pv Hel) in Hc.
       unfold compileOps in Hc. cbn [rkind_of unfold] in Hc.
       unfold compileArray, Tag in Hc. cbn [elem_of len_of unfold] in Hc.
       destruct (N.of_nat sp <? MaxStack)%N; [|discriminate Hc].
       assert (Htab' : tab_above (TArray n el :: tab) el).
       { intros a [<-|Ha]; [cbn; lia|]. specialize (Htab a Ha). cbn in Htab. lia. }
-      intros prog r rest o kk rqs v fuel addr res Hcode Hloc Hty Hstd Hstk.
-      inversion Hty as [ | | | | | | | | n0 el0 l Hlen Hall ]; subst.
+      intros flg prog r rest o kk rqs v fuel addr res Hflg Hcode Hloc Hty Hstd Hstk.
+      inversion Hty as [ | | | | | | | | n0 el0 l Hlen Hall  | ]; subst.
       destruct fuel as [|fuel]; [discriminate Hstd|]. rewrite (std_enc_array fuel _ el l addr false Hel) in Hstd.
       unfold sbind in Hstd. destruct (enc_list fuel el addr l) as [items|] eqn:Eitems; [|discriminate Hstd].
       injection Hstd as <-.
@@ -400,7 +402,7 @@ Section Main.
         assert (I1 : nth_error prog (pc + 1) = Some OP_save) by (eapply code_nth; [exact Hcode|reflexivity]).
         assert (I2 : nth_error prog (pc + 2) = Some OP_drop) by (eapply code_nth; [exact Hcode|reflexivity]).
         assert (I3 : nth_error prog (pc + 3) = Some (OP_byte 93)) by (eapply code_nth; [exact Hcode|reflexivity]).
-        cbn [length]. eexists 4, _. split.
+        cbn [length]. eexists 4, _, rqs. split.
         + eapply steps_S; [apply step_byte; exact I0|]. replace (S pc) with (pc + 1) by lia.
           eapply steps_S; [apply step_save; [exact I1|exact Hsave]|]. replace (S (pc + 1)) with (pc + 2) by lia.
           eapply steps_S; [apply step_drop; exact I2|]. replace (S (pc + 2)) with (pc + 3) by lia.
@@ -427,21 +429,21 @@ Section Main.
         assert (I4 : nth_error prog (pc + 2 + length c0 + 1 + length cr + 1) = Some (OP_byte 93)).
         { eapply code_nth; [exact H4|reflexivity]. }
         assert (Hptr : exists bt bv off, rp r = PAt bt bv off) by (destruct Hloc as (bt & bv & off & Hp & _); eauto).
-        destruct (IHel cf _ pv (sp + 1) (pc + 2) pv c0 Htab' Ec0 prog r rest ([91%N] :: o) (r :: kk) rqs x fuel addr a Cc0)
-          as (m1 & o1 & Hst1 & Ho1).
+        destruct (IHel cf _ pv (sp + 1) (pc + 2) pv c0 Htab' Ec0 flg prog r rest ([91%N] :: o) (r :: kk) rqs x fuel addr a Hflg Cc0)
+          as (m1 & o1 & rq1 & Hst1 & Ho1).
         { apply loc_padd0; [|exact Hptr]. change 0%N with (N.of_nat 0 * sizeof e el)%N.
           eapply loc_elem; [exact Hloc|reflexivity|reflexivity]. }
         { apply Hall. left. reflexivity. }
         { exact Ha. }
         { cbn [need length] in Hstk |- *. lia. }
-        destruct (arrayRest_ok (length l') cf _ pv 1%N sp (pc + 2 + length c0 + 1) cr Htab' Ecr prog r rest o1 kk rqs (x :: l') fuel addr tb Ccr Hloc Hall)
-          as (m2 & o2 & Hst2 & Ho2).
+        destruct (arrayRest_ok (length l') cf _ pv 1%N sp (pc + 2 + length c0 + 1) cr Htab' Ecr flg prog r rest o1 kk rq1 (x :: l') fuel addr tb Hflg Ccr Hloc Hall)
+          as (m2 & o2 & rq2 & Hst2 & Ho2).
         { cbn [length]. lia. }
         { exact Htl. }
         { cbn [need] in Hstk. unfold need_list. lia. }
         match goal with |- context [pc + length ?cc] =>
           replace (pc + length cc) with (pc + 2 + length c0 + 1 + length cr + 2) by (cbn [length]; rewrite !app_length; cbn [length]; rewrite app_length; cbn [length]; lia) end.
-        exists (2 + m1 + 1 + m2 + 2), ([93%N] :: o2). split.
+        exists (2 + m1 + 1 + m2 + 2), ([93%N] :: o2), rq2. split.
         + eapply steps_S; [apply step_byte; exact I0|]. replace (S pc) with (pc + 1) by lia.
           eapply steps_S; [apply step_save; [exact I1|exact Hsave]|]. replace (S (pc + 1)) with (pc + 2) by lia.
           eapply steps_trans; [eapply steps_trans; [eapply steps_trans; [exact Hst1|]|]|].
@@ -455,30 +457,31 @@ Section Main.
     Qed.
 
     (* the loop of a slice after its first item: at the second OP_slice_next *)
-    Lemma slice_loop : forall n (l : list val) j fin c2 prog rest rqs r0 kk,
+    Lemma slice_loop : forall n (l : list val) j fin c2 flg prog rest r0 kk,
+      has_opts flg (b_empty_arr P) = false ->
       nth_error prog j = Some (OP_slice_next fin el) -> nth_error prog (j + 1) = Some (OP_byte 44) ->
       code_at prog (j + 2) c2 -> nth_error prog (j + 2 + length c2) = Some (OP_goto j) ->
       code_ok el c2 (j + 2) ->
       (forall x, In x l -> has_type el x) ->
       (N.of_nat (S (length kk) + need_list l) <= p_stack P)%N ->
-      forall i o rc q off tb fuel,
+      forall i o rc q off tb fuel rqs,
         S i + n = length l -> off = (N.of_nat i * sizeof e el)%N ->
         tail_items fuel el true (skipn (S i) l) = SOk tb ->
-        exists m o' rf,
+        exists m o' rf rqs',
           steps m (mks prog j flg {| rx := n; rcond := rc; rinit := false; rp := PAt (TArray (length l) el) (VArr l) off; rq := q |} rest o (r0 :: kk) rqs)
-                  (mks prog fin flg rf rest o' (r0 :: kk) rqs) /\ out_bytes o' = out_bytes o ++ tb.
+                  (mks prog fin flg rf rest o' (r0 :: kk) rqs') /\ out_bytes o' = out_bytes o ++ tb.
     Proof.
-      induction n as [|n IHn]; intros l j fin c2 prog rest rqs r0 kk I0 I1 Cc2 I2 Hc2 Hty Hstk i o rc q off tb fuel Hlen Hoff Htl.
+      induction n as [|n IHn]; intros l j fin c2 flg prog rest r0 kk Hflg I0 I1 Cc2 I2 Hc2 Hty Hstk i o rc q off tb fuel rqs Hlen Hoff Htl.
       - rewrite skipn_all2 in Htl by lia. cbn in Htl. injection Htl as <-.
-        eexists 1, o, _. split; [|rewrite app_nil_r; reflexivity].
+        eexists 1, o, _, rqs. split; [|rewrite app_nil_r; reflexivity].
         apply steps_one. eapply step_slice_next_end; [exact I0|reflexivity].
       - destruct (skipn_nth _ l (S i) ltac:(lia)) as (x & Hnth & Hsk). rewrite Hsk in Htl.
         destruct (tail_items_cons _ _ _ _ _ _ Htl) as (a & tb' & Ha & Htl' & ->).
         assert (Hin : In x l) by (eapply nth_error_In; exact Hnth).
         set (off' := (off + sizeof e el)%N).
         assert (Hoff' : off' = (N.of_nat (S i) * sizeof e el)%N) by (unfold off'; subst off; lia).
-        destruct (Hc2 prog {| rx := n; rcond := rc; rinit := false; rp := PAt (TArray (length l) el) (VArr l) off'; rq := q |} rest ([44%N] :: o) (r0 :: kk) rqs x fuel true a Cc2)
-          as (m1 & o1 & Hst1 & Ho1).
+        destruct (Hc2 flg prog {| rx := n; rcond := rc; rinit := false; rp := PAt (TArray (length l) el) (VArr l) off'; rq := q |} rest ([44%N] :: o) (r0 :: kk) rqs x fuel true a Hflg Cc2)
+          as (m1 & o1 & rq1 & Hst1 & Ho1).
         { cbn [rp]. rewrite Hoff'.
           change (PAt (TArray (length l) el) (VArr l) (N.of_nat (S i) * sizeof e el))
             with (padd (PAt (TArray (length l) el) (VArr l) 0) (N.of_nat (S i) * sizeof e el)).
@@ -486,9 +489,9 @@ Section Main.
         { apply Hty. exact Hin. }
         { exact Ha. }
         { pose proof (need_list_in _ _ Hin). cbn [length]. lia. }
-        destruct (IHn l j fin c2 prog rest rqs r0 kk I0 I1 Cc2 I2 Hc2 Hty Hstk (S i) o1 rc q off' tb' fuel ltac:(lia) Hoff' Htl')
-          as (m2 & o2 & rf & Hst2 & Ho2).
-        exists (2 + m1 + 1 + m2), o2, rf. split.
+        destruct (IHn l j fin c2 flg prog rest r0 kk Hflg I0 I1 Cc2 I2 Hc2 Hty Hstk (S i) o1 rc q off' tb' fuel rq1 ltac:(lia) Hoff' Htl')
+          as (m2 & o2 & rf & rq2 & Hst2 & Ho2).
+        exists (2 + m1 + 1 + m2), o2, rf, rq2. split.
         + eapply steps_S; [eapply step_slice_next_more; [exact I0|reflexivity|reflexivity]|]. cbn [rcond rp rq padd].
           fold off'. replace (S j) with (j + 1) by lia.
           eapply steps_S; [apply step_byte; exact I1|]. replace (S (j + 1)) with (j + 2) by lia.
@@ -507,7 +510,7 @@ Section Main.
     Proof.
       induction l as [|x l IH]; intro H; [reflexivity|].
       assert (Hx := H x (or_introl eq_refl)).
-      inversion Hx as [ | k z Hr | k bits txt Hk | | | | | | ]; subst.
+      inversion Hx as [ | k z Hr | k bits txt Hk | | | | | |  | ]; subst.
       - cbn [strip bytes_of_vals]. rewrite IH by (intros y Hy; apply H; right; exact Hy). reflexivity.
       - destruct Hk; discriminate.
     Qed.
@@ -517,8 +520,8 @@ Section Main.
     Proof.
       intros cf tab cpv sp pc pv c Htab Hc.
       destruct cf as [|cf]; [discriminate Hc|]. cbn [compileOne] in Hc.
-      rewrite (mem_ty_false _ _ (F_slice el Hel) Htab) in Hc.
-      rewrite (frag_no_marshaler e _ pc pv (F_slice el Hel)) in Hc.
+      rewrite (mem_ty_false _ _ Htab) in Hc.
+      rewrite (frag_no_marshaler e e (TSlice el) pc pv Hel) in Hc.
       unfold compileOps in Hc. cbn [rkind_of unfold] in Hc.
       unfold compileNil, cbind, compileSliceBody in Hc. cbn [elem_of unfold] in Hc.
       assert (Htab' : tab_above (TSlice el :: tab) el).
@@ -530,8 +533,8 @@ Section Main.
         injection Hc as <-.
         assert (Eel : el = TPrim KUint8).
         { unfold is_simple_byte in Esb. apply andb_true_iff in Esb. destruct Esb as [Esb _]. apply andb_true_iff in Esb. destruct Esb as [Esb _].
-          destruct Hel as [k Hk| | | ]; try discriminate Esb. destruct k; try discriminate Esb. reflexivity. }
-        intros prog r rest o kk rqs v fuel addr res Hcode Hloc Hty Hstd Hstk.
+          clear - Hel Esb. destruct el as [k| | | | | | |]; cbn in Hel; try contradiction; try discriminate Esb. destruct k; try discriminate Esb. reflexivity. }
+        intros flg prog r rest o kk rqs v fuel addr res Hflg Hcode Hloc Hty Hstd Hstk.
         pose proof (Hleaf0 r v Hloc) as Hleaf.
         assert (I0 : nth_error prog pc = Some (OP_is_nil (pc + 1 + 2))) by (eapply code_hd; exact Hcode).
         assert (I1 : nth_error prog (pc + 1) = Some OP_bin) by (eapply code_nth; [exact Hcode|reflexivity]).
@@ -539,10 +542,10 @@ Section Main.
         assert (I3 : nth_error prog (pc + 3) = Some OP_empty_arr) by (eapply code_nth; [exact Hcode|reflexivity]).
         destruct fuel as [|fuel]; [discriminate Hstd|].
         cbn [length].
-        inversion Hty as [ | | | | | | el0 | el0 l Hall | ]; subst; cbn [strip] in *.
+        inversion Hty as [ | | | | | | el0 | el0 l Hall |  | ]; subst; cbn [strip] in *.
         + (* nil *)
           cbn in Hstd. replace (addr && false) with false in Hstd by (destruct addr; reflexivity). cbn in Hstd. injection Hstd as <-.
-          eexists 2, _. split.
+          eexists 2, _, rqs. split.
           * eapply steps_S; [eapply step_is_nil; [exact I0|exact Hleaf|reflexivity]|]. cbn [word0_zero].
             replace (pc + 1 + 2) with (pc + 3) by lia.
             eapply steps_S; [apply step_empty_arr; [exact I3|exact Hflg]|].
@@ -552,7 +555,7 @@ Section Main.
           cbn in Hstd. replace (addr && false) with false in Hstd by (destruct addr; reflexivity). cbn in Hstd.
           rewrite (bytes_same l Hall) in Hstd.
           destruct (bytes_of_vals l) as [bs|] eqn:Ebs; [|discriminate Hstd]. injection Hstd as <-.
-          eexists 3, _. split.
+          eexists 3, _, rqs. split.
           * eapply steps_S; [eapply step_is_nil; [exact I0|exact Hleaf|reflexivity]|]. cbn [word0_zero].
             replace (S pc) with (pc + 1) by lia.
             eapply steps_S; [eapply step_bin; [exact I1|exact Hleaf|exact Ebs]|].
@@ -583,7 +586,7 @@ Section Main.
                                [OP_slice_next fin el; OP_byte 44] ++ c2 ++ [OP_goto j; OP_drop; OP_byte 93]) ++
                               [OP_goto (fin + 4); OP_empty_arr]) = fin + 4 - pc).
         { repeat (rewrite app_length; cbn [length]). unfold fin, j. lia. }
-        intros prog r rest o kk rqs v fuel addr res Hcode Hloc Hty Hstd Hstk.
+        intros flg prog r rest o kk rqs v fuel addr res Hflg Hcode Hloc Hty Hstd Hstk.
         rewrite Hlen. replace (pc + (fin + 4 - pc)) with (fin + 4) by (unfold fin, j; lia).
         pose proof (Hleaf0 r v Hloc) as Hleaf.
         assert (I0 : nth_error prog pc = Some (OP_is_nil (fin + 3))) by (eapply code_hd; exact Hcode).
@@ -618,10 +621,10 @@ Section Main.
         { replace (fin + 1) with (j + 2 + length c2 + 2) by (unfold fin; lia). eapply code_nth; [exact H5|reflexivity]. }
         replace (pc + 1 + 5 + length c1 + 2) with (j + 2) in Hc2 by (unfold j; lia).
         destruct fuel as [|fuel]; [discriminate Hstd|].
-        inversion Hty as [ | | | | | | el0 | el0 l Hall | ]; subst; cbn [strip] in *.
+        inversion Hty as [ | | | | | | el0 | el0 l Hall |  | ]; subst; cbn [strip] in *.
         + (* nil slice *)
           cbn in Hstd. replace (addr && false) with false in Hstd by (destruct addr; reflexivity). cbn in Hstd. injection Hstd as <-.
-          eexists 2, _. split.
+          eexists 2, _, rqs. split.
           * eapply steps_S; [eapply step_is_nil; [exact I0|exact Hleaf|reflexivity]|]. cbn [word0_zero].
             eapply steps_S; [apply step_empty_arr; [exact Iend1|exact Hflg]|].
             replace (S (fin + 3)) with (fin + 4) by lia. apply steps_O.
@@ -631,10 +634,10 @@ Section Main.
           destruct (enc_list fuel el true l) as [items|] eqn:Eitems; [|discriminate Hstd]. injection Hstd as <-.
           assert (Hsave : (N.of_nat (length kk) < p_stack P)%N) by (cbn [need] in Hstk; lia).
           (* common prefix: is_nil, '[', is_nil, save, slice_len *)
-          assert (Hpre : forall o0, steps 5 (mks prog pc flg r rest o0 kk rqs)
+          assert (Hpre : forall o0 rq0, steps 5 (mks prog pc flg r rest o0 kk rq0)
                     (mks prog (pc + 5) flg {| rx := length l; rcond := rcond r; rinit := true;
-                                              rp := PAt (TArray (length l) el) (VArr l) 0; rq := rq r |} rest ([91%N] :: o0) (r :: kk) rqs)).
-          { intro o0.
+                                              rp := PAt (TArray (length l) el) (VArr l) 0; rq := rq r |} rest ([91%N] :: o0) (r :: kk) rq0)).
+          { intros o0 rq0.
             eapply steps_S; [eapply step_is_nil; [exact I0|exact Hleaf|reflexivity]|]. cbn [word0_zero].
             replace (S pc) with (pc + 1) by lia.
             eapply steps_S; [apply step_byte; exact B0|]. replace (S (pc + 1)) with (pc + 2) by lia.
@@ -644,15 +647,15 @@ Section Main.
             eapply steps_S; [eapply step_slice_len; [exact B3|exact Hleaf]|]. replace (S (pc + 4)) with (pc + 5) by lia.
             apply steps_O. }
           (* common suffix from fin: drop, ']', goto *)
-          assert (Hpost : forall rf o0, steps 3 (mks prog fin flg rf rest o0 (r :: kk) rqs) (mks prog (fin + 4) flg r rest ([93%N] :: o0) kk rqs)).
-          { intros rf o0.
+          assert (Hpost : forall rf o0 rq0, steps 3 (mks prog fin flg rf rest o0 (r :: kk) rq0) (mks prog (fin + 4) flg r rest ([93%N] :: o0) kk rq0)).
+          { intros rf o0 rq0.
             eapply steps_S; [apply step_drop; exact F0|]. replace (S fin) with (fin + 1) by lia.
             eapply steps_S; [apply step_byte; exact F1|]. replace (S (fin + 1)) with (fin + 2) by lia.
             eapply steps_S; [apply step_goto; exact Iend0|]. apply steps_O. }
           destruct l as [|x l'].
           * (* empty *)
             cbn in Eitems. injection Eitems as <-.
-            eexists (5 + (1 + 3)), _. split.
+            eexists (5 + (1 + 3)), _, rqs. split.
             -- eapply steps_trans; [apply Hpre|]. eapply steps_trans; [|apply Hpost].
                apply steps_one. eapply step_slice_next_end; [exact B4|reflexivity].
             -- rewrite !out_cons. rewrite <- !app_assoc. reflexivity.
@@ -660,7 +663,7 @@ Section Main.
             set (r2 := {| rx := length l'; rcond := rcond r; rinit := false;
                           rp := PAt (TArray (length (x :: l')) el) (VArr (x :: l')) 0; rq := rq r |}).
             replace (pc + 1 + 5) with (pc + 6) in Hc1, Cc1 by lia.
-            destruct (Hc1 prog r2 rest ([91%N] :: o) (r :: kk) rqs x fuel true a Cc1) as (m1 & o1 & Hst1 & Ho1).
+            destruct (Hc1 flg prog r2 rest ([91%N] :: o) (r :: kk) rqs x fuel true a Hflg Cc1) as (m1 & o1 & rq1 & Hst1 & Ho1).
             { unfold r2. cbn [rp].
               change (PAt (TArray (length (x :: l')) el) (VArr (x :: l')) 0)
                 with (padd (PAt (TArray (length (x :: l')) el) (VArr (x :: l')) 0) (N.of_nat 0 * sizeof e el)).
@@ -669,10 +672,10 @@ Section Main.
             { exact Ha. }
             { cbn [need length] in Hstk |- *. lia. }
             replace (pc + 6 + length c1) with j in Hst1 by reflexivity.
-            destruct (slice_loop (length l') (x :: l') j fin c2 prog rest rqs r kk J0 J1 Cc2 J2 Hc2 Hall
-                        ltac:(cbn [need] in Hstk; unfold need_list; lia) 0 o1 (rcond r) (rq r) 0%N tb fuel
-                        ltac:(cbn [length]; lia) eq_refl Htl) as (m2 & o2 & rf & Hst2 & Ho2).
-            eexists (5 + (1 + m1 + m2 + 3)), _. split.
+            destruct (slice_loop (length l') (x :: l') j fin c2 flg prog rest r kk Hflg J0 J1 Cc2 J2 Hc2 Hall
+                        ltac:(cbn [need] in Hstk; unfold need_list; lia) 0 o1 (rcond r) (rq r) 0%N tb fuel rq1
+                        ltac:(cbn [length]; lia) eq_refl Htl) as (m2 & o2 & rf & rq2 & Hst2 & Ho2).
+            eexists (5 + (1 + m1 + m2 + 3)), _, rq2. split.
             -- eapply steps_trans; [apply Hpre|]. eapply steps_trans; [|apply Hpost].
                eapply steps_S; [eapply step_slice_next_first; [exact B4|reflexivity|reflexivity]|]. cbn [rcond rp rq].
                replace (S (pc + 5)) with (pc + 6) by lia. fold r2.
@@ -681,31 +684,323 @@ Section Main.
     Qed.
   End Seq.
 
+  (* ---- structs *)
+  Lemma compileOne_S : forall f tab cpv sp pc vt pv,
+    compileOne e co (S f) tab cpv sp pc vt pv =
+    if mem_ty vt tab then COk [OP_recurse vt pv]
+    else match tryCompileMarshaler e pc vt pv with
+         | Some c => COk c
+         | None => compileOps e co (compileOne e co f) (vt :: tab) pv sp pc vt
+         end.
+  Proof. reflexivity. Qed.
+
+  Lemma has_opts_set_other : forall fl b b', b <> b' -> has_opts (set_bit fl b) b' = has_opts fl b'.
+  Proof.
+    intros fl b b' Hne. unfold has_opts, set_bit. rewrite N.lor_spec. rewrite N.shiftl_1_l.
+    rewrite N.pow2_bits_eqb. assert ((b =? b')%N = false) as -> by (apply N.eqb_neq; exact Hne). apply orb_false_r.
+  Qed.
+
+  Lemma has_opts_clear_other : forall fl b b', b <> b' -> has_opts (clear_bit fl b) b' = has_opts fl b'.
+  Proof.
+    intros fl b b' Hne. unfold has_opts, clear_bit. rewrite N.ldiff_spec. rewrite N.shiftl_1_l.
+    rewrite N.pow2_bits_eqb. assert ((b =? b')%N = false) as -> by (apply N.eqb_neq; exact Hne). apply andb_true_r.
+  Qed.
+
+  Definition enc_fields (f : nat) (t : ty) (v : val) (addr : bool) : list field -> bool -> sres :=
+    fix go (fs : list field) (first : bool) : sres :=
+      match fs with
+      | [] => SOk []
+      | fd :: r =>
+          match nav e (PAt t v 0) (f_path fd) addr with
+          | None => SErr S_illtyped
+          | Some None => go r first
+          | Some (Some (p, a)) =>
+              match typed e (f_type fd) p with
+              | None => SErr S_illtyped
+              | Some fv =>
+                  if (F_omitempty fd && is_empty_value e (f_type fd) fv) || (F_omitzero fd && is_zero_val e (f_type fd) fv)
+                  then go r first
+                  else dos x <- std_enc e Qraw f (f_type fd) fv a (F_stringize fd); dos rest <- go r false;
+                       SOk ((if first then [] else [44%N]) ++ q1 Qraw (f_name fd) ++ [58%N] ++ x ++ rest)
+              end
+          end
+      end.
+
+  Lemma std_enc_struct : forall f sz ph fs vs addr q,
+    std_enc e Qraw (S f) (TStruct sz ph fs) (VStruct vs) addr q =
+    sbind (enc_fields f (TStruct sz ph fs) (VStruct vs) addr fs true) (fun items => SOk ([123%N] ++ items ++ [125%N])).
+  Proof. intros. destruct addr; reflexivity. Qed.
+
+  Section Struct.
+    Variables (sz : N) (ph : list (N * ty)) (fsall : list field).
+    Notation ST := (TStruct sz ph fsall).
+    Hypothesis Hlay : layout_ok e 0 ph sz.
+    Hypothesis IHph : forall o t, In (o, t) ph -> forall cf tab cpv sp pc pv c, tab_above tab t ->
+      compileOne e co cf tab cpv sp pc t pv = COk c -> code_ok t c pc.
+
+    (* registers while the fields of a struct are emitted: everything from the saved state, only the comma flag varies *)
+    Definition rc (r0 : regs) (c : bool) : regs :=
+      {| rx := rx r0; rcond := c; rinit := rinit r0; rp := rp r0; rq := rq r0 |}.
+
+    Lemma enc_fields_cons : forall f vs addr fd r first o k x,
+      f_path fd = [(o, false)] -> f_opts fd = 0%N ->
+      nth_error ph k = Some (o, f_type fd) -> nth_error vs k = Some x ->
+      enc_fields f ST (VStruct vs) addr (fd :: r) first =
+      sbind (std_enc e Qraw f (f_type fd) x addr false) (fun a =>
+        sbind (enc_fields f ST (VStruct vs) addr r false) (fun rest =>
+          SOk ((if first then [] else [44%N]) ++ quote (f_name fd) false ++ [58%N] ++ a ++ rest))).
+    Proof.
+      intros f vs addr fd r first o k x Hp Ho Hk Hx.
+      change (enc_fields f ST (VStruct vs) addr (fd :: r) first) with
+        (match nav e (PAt ST (VStruct vs) 0) (f_path fd) addr with
+         | None => SErr S_illtyped
+         | Some None => enc_fields f ST (VStruct vs) addr r first
+         | Some (Some (p, a)) =>
+             match typed e (f_type fd) p with
+             | None => SErr S_illtyped
+             | Some fv =>
+                 if (F_omitempty fd && is_empty_value e (f_type fd) fv) || (F_omitzero fd && is_zero_val e (f_type fd) fv)
+                 then enc_fields f ST (VStruct vs) addr r first
+                 else dos x <- std_enc e Qraw f (f_type fd) fv a (F_stringize fd); dos rest <- enc_fields f ST (VStruct vs) addr r false;
+                      SOk ((if first then [] else [44%N]) ++ q1 Qraw (f_name fd) ++ [58%N] ++ x ++ rest)
+             end
+         end).
+      rewrite Hp. cbn [nav padd]. change (0 + o)%N with o. rewrite (typed_field e sz ph fsall vs k o (f_type fd) x Hlay Hk Hx).
+      unfold F_omitempty, F_omitzero, F_stringize. rewrite Ho. cbn [N.testbit andb orb]. reflexivity.
+    Qed.
+
+    Lemma fields_exec : forall fs, Forall (field_ok ph) fs ->
+      forall cf tab cpv sp pc code, tab_above tab ST ->
+      fieldsCode e co (compileOne e co cf) (ST :: tab) cpv sp pc fs = COk code ->
+      forall flg prog r0 rest o kk rqs vs c fuel addr items,
+        has_opts flg (b_empty_arr P) = false ->
+        code_at prog pc code ->
+        loc e (rp r0) ST (VStruct vs) -> length vs = length ph ->
+        (forall k o t x, nth_error ph k = Some (o, t) -> nth_error vs k = Some x -> has_type t x) ->
+        enc_fields fuel ST (VStruct vs) addr fs c = SOk items ->
+        (N.of_nat (S (length kk) + need_list vs) <= p_stack P)%N ->
+        exists n o' rqs',
+          steps n (mks prog pc flg (rc r0 c) rest o (r0 :: kk) rqs)
+                  (mks prog (pc + length code) flg (rc r0 (match fs with [] => c | _ => false end)) rest o' (r0 :: kk) rqs')
+          /\ out_bytes o' = out_bytes o ++ items.
+    Proof.
+      induction 1 as [|fd fs Hfd Hfs IH]; intros cf tab cpv sp pc code Htab Hc flg prog r0 rest o kk rqs vs c fuel addr items Hflg Hcode Hloc Hlen Hty Henc Hstk.
+      - cbn in Hc. injection Hc as <-. cbn in Henc. injection Henc as <-.
+        exists 0, o, rqs. split; [cbn [length]; rewrite Nat.add_0_r; apply steps_O|rewrite app_nil_r; reflexivity].
+      - destruct Hfd as (fo & Hpath & Hopts & Hin).
+        destruct (In_nth_error _ _ Hin) as [k Hk].
+        assert (Hkx : exists x, nth_error vs k = Some x).
+        { destruct (nth_error vs k) eqn:E; [eauto|]. apply nth_error_None in E. assert (k < length ph) by (apply nth_error_Some; congruence). lia. }
+        destruct Hkx as [x Hx].
+        rewrite (enc_fields_cons fuel vs addr fd fs c fo k x Hpath Hopts Hk Hx) in Henc. unfold sbind in Henc.
+        destruct (std_enc e Qraw fuel (f_type fd) x addr false) as [a|] eqn:Ea; [|discriminate Henc].
+        destruct (enc_fields fuel ST (VStruct vs) addr fs false) as [restb|] eqn:Erest; [|discriminate Henc].
+        (* the code of this field *)
+        cbn [fieldsCode] in Hc. unfold cbind in Hc.
+        destruct (fieldCode e co (compileOne e co cf) (ST :: tab) cpv sp pc fd) as [cfd|] eqn:Ecfd; [|discriminate Hc].
+        destruct (fieldsCode e co (compileOne e co cf) (ST :: tab) cpv sp (pc + length cfd) fs) as [cfs|] eqn:Ecfs; [|discriminate Hc].
+        injection Hc as <-.
+        unfold fieldCode in Ecfd.
+        assert (Hno : F_omitempty fd = false /\ F_omitzero fd = false /\ F_stringize fd = false).
+        { unfold F_omitempty, F_omitzero, F_stringize. rewrite Hopts. repeat split; reflexivity. }
+        destruct Hno as (Hoe & Hoz & Hst).
+        assert (Harr : (match rkind_of e (f_type fd) with RArray => Nat.eqb (len_of e (f_type fd)) 0 && F_omitempty fd | _ => false end) = false).
+        { rewrite Hoe. destruct (rkind_of e (f_type fd)); try reflexivity. apply andb_false_r. }
+        rewrite Harr in Ecfd.
+        assert (Hom : forall L, omitCode e co fd L = COk []).
+        { intro L. unfold omitCode, cbind. rewrite Hoe, Hoz. destruct (rkind_of e (f_type fd)); reflexivity. }
+        rewrite !Hom in Ecfd. unfold cbind in Ecfd. rewrite Hpath in Ecfd. cbn [pathCode app length] in Ecfd. rewrite Hst in Ecfd.
+        unfold one in Ecfd.
+        destruct (compileOne e co cf (ST :: tab) cpv (sp + 1) (pc + 1 + 0 + 3) (f_type fd) cpv) as [cv|] eqn:Ecv; [|discriminate Ecfd].
+        rewrite Hom in Ecfd. cbn [app] in Ecfd. injection Ecfd as <-.
+        replace (pc + 1 + 0 + 3) with (pc + 4) in Ecv by lia.
+        assert (Hcv : code_ok (f_type fd) cv (pc + 4)).
+        { eapply (IHph fo (f_type fd) Hin); [|exact Ecv].
+          intros b [<-|Hb].
+          - rewrite tsize_struct. pose proof (phys_size_in ph fo (f_type fd) Hin). lia.
+          - specialize (Htab b Hb). rewrite tsize_struct in Htab. pose proof (phys_size_in ph fo (f_type fd) Hin). lia. }
+        (* layout of the field's code *)
+        match type of Hcode with code_at _ _ (?fc ++ _) => set (fcode := fc) in * end.
+        pose proof (code_at_app_l _ _ _ _ Hcode) as Hf.
+        pose proof (code_at_app_r _ _ _ _ Hcode) as Hrest.
+        assert (Hfl : length fcode = 4 + length cv + 1) by (unfold fcode; cbn [length app]; rewrite app_length; cbn [length]; lia).
+        assert (I0 : nth_error prog pc = Some (OP_index fo)) by (eapply code_hd; exact Hf).
+        assert (I1 : nth_error prog (pc + 1) = Some (OP_cond_testc (pc + 1 + 0 + 2))) by (eapply code_nth; [exact Hf|reflexivity]).
+        assert (I2 : nth_error prog (pc + 2) = Some (OP_byte 44)) by (eapply code_nth; [exact Hf|reflexivity]).
+        assert (I3 : nth_error prog (pc + 3) = Some (OP_text (quote (f_name fd) false ++ [58%N]))) by (eapply code_nth; [exact Hf|reflexivity]).
+        assert (Ccv : code_at prog (pc + 4) cv).
+        { intros i ins Hnth. rewrite <- Nat.add_assoc. apply Hf. unfold fcode. cbn [app]. cbn [Nat.add nth_error].
+          rewrite nth_error_app1; [exact Hnth|]. apply nth_error_Some. congruence. }
+        assert (I4 : nth_error prog (pc + 4 + length cv) = Some OP_load).
+        { rewrite <- Nat.add_assoc. apply Hf. unfold fcode. cbn [app]. cbn [Nat.add nth_error]. apply nth_mid. }
+        (* run *)
+        set (qn := quote (f_name fd) false) in *. clearbody qn. injection Henc as <-.
+        set (rfield := {| rx := rx r0; rcond := false; rinit := rinit r0; rp := padd (rp r0) fo; rq := rq r0 |}).
+        assert (Hpre : exists m1, steps m1 (mks prog pc flg (rc r0 c) rest o (r0 :: kk) rqs)
+                                   (mks prog (pc + 4) flg rfield rest ((qn ++ [58%N]) :: (if c then o else [44%N] :: o)) (r0 :: kk) rqs)).
+        { destruct c.
+          - exists 3. eapply steps_S; [apply step_index; exact I0|]. replace (S pc) with (pc + 1) by lia.
+            eapply steps_S; [apply step_cond_testc; exact I1|]. cbn [rc set_p rcond rx rinit rp rq].
+            replace (pc + 1 + 0 + 2) with (pc + 3) by lia.
+            eapply steps_S; [apply step_text; exact I3|]. replace (S (pc + 3)) with (pc + 4) by lia. apply steps_O.
+          - exists 4. eapply steps_S; [apply step_index; exact I0|]. replace (S pc) with (pc + 1) by lia.
+            eapply steps_S; [apply step_cond_testc; exact I1|]. cbn [rc set_p rcond rx rinit rp rq].
+            replace (S (pc + 1)) with (pc + 2) by lia.
+            eapply steps_S; [apply step_byte; exact I2|]. replace (S (pc + 2)) with (pc + 3) by lia.
+            eapply steps_S; [apply step_text; exact I3|]. replace (S (pc + 3)) with (pc + 4) by lia. apply steps_O. }
+        destruct Hpre as [m1 Hpre].
+        destruct (Hcv flg prog rfield rest ((qn ++ [58%N]) :: (if c then o else [44%N] :: o)) (r0 :: kk) rqs x fuel addr a Hflg Ccv)
+          as (m2 & o2 & rq2 & Hst2 & Ho2).
+        { unfold rfield. cbn [rp]. eapply loc_field; eassumption. }
+        { eapply Hty; eassumption. }
+        { exact Ea. }
+        { pose proof (need_list_in vs x (nth_error_In _ _ Hx)). cbn [length]. lia. }
+        destruct (IH cf tab cpv sp (pc + length fcode) cfs Htab Ecfs flg prog r0 rest o2 kk rq2 vs false fuel addr restb Hflg Hrest Hloc Hlen Hty Erest Hstk)
+          as (m3 & o3 & rq3 & Hst3 & Ho3).
+        exists (m1 + m2 + 1 + m3), o3, rq3. split.
+        + eapply steps_trans; [eapply steps_trans; [eapply steps_trans; [exact Hpre|exact Hst2]|]|].
+          * apply steps_one. rewrite step_load by exact I4. reflexivity.
+          * replace (S (pc + 4 + length cv)) with (pc + length fcode) by lia.
+            replace (pc + length (fcode ++ cfs)) with (pc + length fcode + length cfs) by (rewrite app_length; lia).
+            assert (Hfin : (match fd :: fs with [] => c | _ => false end) = (match fs with [] => false | _ => false end)) by (destruct fs; reflexivity).
+            rewrite Hfin. exact Hst3.
+        + rewrite Ho3, Ho2, out_cons. destruct c; [|rewrite out_cons]; rewrite <- ?app_assoc; reflexivity.
+    Qed.
+
+    Hypothesis Hfields : Forall (field_ok ph) fsall.
+
+    Lemma struct_body_ok : forall cf tab cpv sp pc code, tab_above tab ST ->
+      compileStructBody e co (compileOne e co cf) (ST :: tab) cpv sp pc ST = COk code -> code_ok ST code pc.
+    Proof.
+      intros cf tab cpv sp pc code Htab Hc.
+      unfold compileStructBody, Tag, cbind in Hc. cbn [fields_of unfold] in Hc.
+      destruct (N.of_nat sp <? MaxStack)%N; [|discriminate Hc].
+      destruct (fieldsCode e co (compileOne e co cf) (ST :: tab) cpv sp (pc + 3) fsall) as [cf0|] eqn:Ecf; [|discriminate Hc].
+      injection Hc as <-.
+      intros flg prog r rest o kk rqs v fuel addr res Hflg Hcode Hloc Hty Hstd Hstk.
+      inversion Hty as [ | | | | | | | | | sz0 ph0 fs0 vs Hlen Hall ]; subst.
+      destruct fuel as [|fuel]; [discriminate Hstd|]. rewrite std_enc_struct in Hstd. unfold sbind in Hstd.
+      destruct (enc_fields fuel ST (VStruct vs) addr fsall true) as [items|] eqn:Eit; [|discriminate Hstd]. injection Hstd as <-.
+      assert (Hsave : (N.of_nat (length kk) < p_stack P)%N) by (cbn [need] in Hstk; lia).
+      assert (I0 : nth_error prog pc = Some (OP_byte 123)) by (eapply code_hd; exact Hcode).
+      assert (I1 : nth_error prog (pc + 1) = Some OP_save) by (eapply code_nth; [exact Hcode|reflexivity]).
+      assert (I2 : nth_error prog (pc + 2) = Some OP_cond_set) by (eapply code_nth; [exact Hcode|reflexivity]).
+      pose proof (code_at_app_r prog pc [OP_byte 123; OP_save; OP_cond_set] (cf0 ++ [OP_drop; OP_byte 125]) Hcode) as H1. cbn [length] in H1.
+      pose proof (code_at_app_l _ _ _ _ H1) as Cf.
+      pose proof (code_at_app_r _ _ _ _ H1) as H2.
+      assert (I3 : nth_error prog (pc + 3 + length cf0) = Some OP_drop) by (eapply code_hd; exact H2).
+      assert (I4 : nth_error prog (pc + 3 + length cf0 + 1) = Some (OP_byte 125)) by (eapply code_nth; [exact H2|reflexivity]).
+      destruct (fields_exec fsall Hfields cf tab cpv sp (pc + 3) cf0 Htab Ecf flg prog r rest ([123%N] :: o) kk rqs vs true fuel addr items Hflg Cf Hloc Hlen Hall Eit)
+        as (n & o1 & rq1 & Hst & Ho).
+      { cbn [need] in Hstk. unfold need_list. lia. }
+      match goal with |- context [pc + length ?cc] =>
+        replace (pc + length cc) with (pc + 3 + length cf0 + 2) by (cbn [length]; rewrite app_length; cbn [length]; lia) end.
+      exists (3 + n + 2), ([125%N] :: o1), rq1. split.
+      + eapply steps_S; [apply step_byte; exact I0|]. replace (S pc) with (pc + 1) by lia.
+        eapply steps_S; [apply step_save; [exact I1|exact Hsave]|]. replace (S (pc + 1)) with (pc + 2) by lia.
+        eapply steps_S; [apply step_cond_set; exact I2|]. replace (S (pc + 2)) with (pc + 3) by lia.
+        eapply steps_trans; [exact Hst|].
+        eapply steps_S; [apply step_drop; exact I3|]. replace (S (pc + 3 + length cf0)) with (pc + 3 + length cf0 + 1) by lia.
+        eapply steps_S; [apply step_byte; exact I4|]. replace (S (pc + 3 + length cf0 + 1)) with (pc + 3 + length cf0 + 2) by lia.
+        apply steps_O.
+      + rewrite out_cons, Ho, out_cons. rewrite <- !app_assoc. reflexivity.
+    Qed.
+
+    Hypothesis Hinline : 0 < MaxInlineDepth co.
+    Hypothesis Hcomp : forall pv, exists prog, compile e co ST pv = COk prog.
+    Hypothesis Hfrag : frag e ST.
+
+    Lemma struct_ok : forall cf tab cpv sp pc pv c, tab_above tab ST ->
+      compileOne e co cf tab cpv sp pc ST pv = COk c -> code_ok ST c pc.
+    Proof.
+      intros cf tab cpv sp pc pv c Htab Hc.
+      destruct cf as [|cf]; [discriminate Hc|]. cbn [compileOne] in Hc.
+      rewrite (mem_ty_false _ _ Htab) in Hc.
+      rewrite (frag_no_marshaler e e ST pc pv Hfrag) in Hc.
+      unfold compileOps in Hc. cbn [rkind_of unfold] in Hc. unfold compileStruct in Hc.
+      match type of Hc with (if ?b then _ else _) = _ => destruct b end.
+      2: { eapply struct_body_ok; eassumption. }
+      injection Hc as <-.
+      intros flg prog r rest o kk rqs v fuel addr res Hflg Hcode Hloc Hty Hstd Hstk.
+      set (fv := if pv then set_bit flg (b_recurse P) else clear_bit flg (b_recurse P)).
+      destruct (Hcomp (has_opts fv BitPointerValue)) as [prog' Hp'].
+      assert (Hflg' : has_opts fv (b_empty_arr P) = false).
+      { unfold fv. destruct pv; [rewrite has_opts_set_other by exact Hbr|rewrite has_opts_clear_other by exact Hbr]; exact Hflg. }
+      (* the nested program is the inlined body *)
+      assert (Hok' : code_ok ST prog' 0).
+      { unfold compile in Hp'. change compile_fuel with (S 399) in Hp'. rewrite compileOne_S in Hp'.
+        change (mem_ty ST []) with false in Hp'. cbv iota in Hp'.
+        rewrite (frag_no_marshaler e e ST 0 _ Hfrag) in Hp'.
+        unfold compileOps in Hp'. cbn [rkind_of unfold] in Hp'. unfold compileStruct in Hp'.
+        assert ((MaxInlineDepth co <=? 0) = false) as Hm by (apply Nat.leb_gt; exact Hinline).
+        rewrite Hm in Hp'. cbn [orb andb Nat.ltb Nat.leb N.of_nat N.leb N.compare MAX_ILBUF] in Hp'.
+        eapply (struct_body_ok _ []); [intros a []|exact Hp']. }
+      destruct (Hok' fv prog' (regs0 (rp r)) (mkf prog (S pc) flg r :: rest) o kk ((ST, has_opts fv BitPointerValue) :: rqs) v fuel addr res
+                  Hflg' (code_at_self prog') Hloc Hty Hstd Hstk) as (n & o' & rq' & Hst & Ho).
+      assert (I0 : nth_error prog pc = Some (OP_recurse ST pv)) by (eapply code_hd; exact Hcode).
+      exists (1 + n + 1), o', rq'. split; [|exact Ho].
+      eapply steps_S.
+      { eapply step_recurse; [exact I0|]. unfold fv in Hp'. exact Hp'. }
+      fold fv.
+      eapply steps_trans; [exact Hst|].
+      apply steps_one. cbn [length]. rewrite Nat.add_1_r.
+      unfold mks at 1. rewrite step_return by (apply nth_error_None; lia). reflexivity.
+    Qed.
+  End Struct.
+
+  (* every struct type inside t compiles at top level (what OP_recurse asks of the program cache) *)
+  Fixpoint compilable (t : ty) : Prop :=
+    match t with
+    | TPtr el | TSlice el | TArray _ el => compilable el
+    | TStruct sz ph fs =>
+        (forall pv, exists prog, compile e co (TStruct sz ph fs) pv = COk prog) /\
+        (fix all (l : list (N * ty)) : Prop := match l with [] => True | (_, t) :: r => compilable t /\ all r end) ph
+    | _ => True
+    end.
+
+  Lemma compilable_in : forall ph o t,
+    (fix all (l : list (N * ty)) : Prop := match l with [] => True | (_, t) :: r => compilable t /\ all r end) ph ->
+    In (o, t) ph -> compilable t.
+  Proof.
+    induction ph as [|[o' t'] r IH]; intros o t H Hin; [destruct Hin|].
+    destruct H as [Ht Hr]. destruct Hin as [Hin|Hin]; [inversion Hin; subst; exact Ht|]. eapply IH; eassumption.
+  Qed.
+
+  Hypothesis Hinline : 0 < MaxInlineDepth co.
+
   (* ---- all types of the fragment *)
-  Theorem code_ok_frag : forall t, frag t -> forall cf tab cpv sp pc pv c, tab_above tab t ->
+  Theorem code_ok_frag : forall t, frag e t -> compilable t -> forall cf tab cpv sp pc pv c, tab_above tab t ->
     compileOne e co cf tab cpv sp pc t pv = COk c -> code_ok t c pc.
   Proof.
-    induction 1 as [k Hk|el Hel IH|el Hel IH|n el Hel IH]; intros cf tab cpv sp pc pv c Htab Hc.
+    induction t using ty_ind'; intros Hf Hcp cf tab cpv sp pc pv c Htab Hc; cbn [frag] in Hf; try contradiction.
     - eapply scalar_ok; eassumption.
-    - eapply ptr_ok; eassumption.
-    - eapply slice_ok; eassumption.
-    - eapply array_ok; eassumption.
+    - eapply array_ok; try eassumption. intros. eapply IHt; eassumption.
+    - eapply slice_ok; try eassumption. intros. eapply IHt; eassumption.
+    - eapply ptr_ok; try eassumption. intros. eapply IHt; eassumption.
+    - destruct Hf as (Hall & Hlay & Hfs). destruct Hcp as (Hcomp & Hcall).
+      eapply (struct_ok s ph fs Hlay); try eassumption.
+      + intros o t Hin. rewrite Forall_forall in H. specialize (H (o, t) Hin). cbn in H.
+        intros. eapply H; try eassumption.
+        * eapply frag_all_in; eassumption.
+        * eapply compilable_in; eassumption.
+      + cbn [frag]. repeat split; assumption.
   Qed.
 
   (* Marshal of a value of the fragment: the machine stops with exactly the bytes of the reference encoder *)
-  Theorem exec_frag : forall t v fuel res prog,
-    frag t -> has_type t v ->
+  Theorem exec_frag : forall flg t v fuel res prog,
+    has_opts flg (b_empty_arr P) = false ->
+    frag e t -> compilable t -> has_type t v ->
     compile e co t (has_opts flg BitPointerValue) = COk prog ->
     std_marshal e Qraw fuel (Some (t, v)) = SOk res ->
     (N.of_nat (need v) <= p_stack P)%N ->
     exists s0 k, call e co state0 t (PAt t v 0) flg = Running s0 /\
                  forall n, k < 2 ^ n -> run P e co n s0 = Done res.
   Proof.
-    intros t v fuel res prog Ht Hv Hc Hstd Hstk.
+    intros flg t v fuel res prog Hflg Ht Hcp Hv Hc Hstd Hstk.
     assert (Hok : code_ok t prog 0).
-    { unfold compile in Hc. eapply code_ok_frag; [exact Ht| |exact Hc]. intros a []. }
-    destruct (Hok prog (regs0 (PAt t v 0)) [] [] [] [(t, has_opts flg BitPointerValue)] v fuel false res
-                (code_at_self prog) (loc_root e t v) Hv Hstd ltac:(cbn [length]; lia)) as (k & o' & Hst & Ho).
+    { unfold compile in Hc. eapply code_ok_frag; [exact Ht|exact Hcp| |exact Hc]. intros a []. }
+    destruct (Hok flg prog (regs0 (PAt t v 0)) [] [] [] [(t, has_opts flg BitPointerValue)] v fuel false res
+                Hflg (code_at_self prog) (loc_root e t v) Hv Hstd ltac:(cbn [length]; lia)) as (k & o' & rq' & Hst & Ho).
     unfold call. rewrite Hc. eexists _, k. split; [reflexivity|].
     intros n Hn. eapply run_complete2; [exact Hst| |discriminate|exact Hn].
     unfold VM.step, mks, mkf. cbn [frames fprog fpc].
@@ -734,71 +1029,77 @@ Section Agree.
   Hypothesis Hi : forall z, (- 2 ^ 63 <= z < 2 ^ 63)%Z -> p_i64toa P z = itoa z.
   Hypothesis Hu : forall z, (0 <= z < 2 ^ 64)%Z -> p_u64toa P z = utoa (Z.to_N z).
   Hypothesis Hq : forall s d, p_quote P s d = quote s d.
+  Hypothesis Hbr : b_recurse P <> b_empty_arr P.
   Hypothesis Hflg : has_opts std_flags (b_empty_arr P) = false.
+  Hypothesis Hinline : 0 < MaxInlineDepth co.
 
   Theorem marshal_agree_frag : forall t v fuel res prog,
-    frag t -> has_type (fok P) t v ->
+    frag e t -> compilable e co t -> has_type (fok P) t v ->
     compile e co t false = COk prog ->
     std_marshal e Qraw fuel (Some (t, v)) = SOk res ->
     (N.of_nat (need v) <= p_stack P)%N ->
     agree (encode P e co std_flags (Some (t, v))) res.
   Proof.
-    intros t v fuel res prog Ht Hv Hc Hstd Hstk.
-    destruct (exec_frag P e co std_flags Hi Hu Hq Hflg t v fuel res prog Ht Hv Hc Hstd Hstk) as (s0 & k & Hcall & Hrun).
+    intros t v fuel res prog Ht Hcp Hv Hc Hstd Hstk.
+    destruct (exec_frag P e co Hi Hu Hq Hbr Hinline std_flags t v fuel res prog Hflg Ht Hcp Hv Hc Hstd Hstk) as (s0 & k & Hcall & Hrun).
     unfold agree, encode, exec_top. rewrite Hcall.
+    assert (Hk : k < 2 ^ (40 + k)) by (pose proof (pow2_gt (40 + k)); lia).
+    pose proof (Hrun (40 + k) Hk) as H1.
     destruct (run P e co 40 s0) as [s'| b | x | c | ] eqn:E; cbn [finish_run].
     - right. reflexivity.
-    - assert (Hk : k < 2 ^ (40 + k)) by (pose proof (pow2_gt (40 + k)); lia).
-      pose proof (Hrun (40 + k) Hk) as H1.
-      pose proof (run_mono P e co 40 s0 _ E ltac:(discriminate) (40 + k) ltac:(lia)) as H2.
+    - pose proof (run_mono P e co 40 s0 _ E ltac:(discriminate) (40 + k) ltac:(lia)) as H2.
       rewrite H1 in H2. injection H2 as <-. left. reflexivity.
-    - assert (Hk : k < 2 ^ (40 + k)) by (pose proof (pow2_gt (40 + k)); lia).
-      pose proof (Hrun (40 + k) Hk) as H1.
-      pose proof (run_mono P e co 40 s0 _ E ltac:(discriminate) (40 + k) ltac:(lia)) as H2.
-      rewrite H1 in H2. discriminate H2.
-    - assert (Hk : k < 2 ^ (40 + k)) by (pose proof (pow2_gt (40 + k)); lia).
-      pose proof (Hrun (40 + k) Hk) as H1.
-      pose proof (run_mono P e co 40 s0 _ E ltac:(discriminate) (40 + k) ltac:(lia)) as H2.
-      rewrite H1 in H2. discriminate H2.
-    - assert (Hk : k < 2 ^ (40 + k)) by (pose proof (pow2_gt (40 + k)); lia).
-      pose proof (Hrun (40 + k) Hk) as H1.
-      pose proof (run_mono P e co 40 s0 _ E ltac:(discriminate) (40 + k) ltac:(lia)) as H2.
-      rewrite H1 in H2. discriminate H2.
+    - pose proof (run_mono P e co 40 s0 _ E ltac:(discriminate) (40 + k) ltac:(lia)) as H2. rewrite H1 in H2. discriminate H2.
+    - pose proof (run_mono P e co 40 s0 _ E ltac:(discriminate) (40 + k) ltac:(lia)) as H2. rewrite H1 in H2. discriminate H2.
+    - pose proof (run_mono P e co 40 s0 _ E ltac:(discriminate) (40 + k) ltac:(lia)) as H2. rewrite H1 in H2. discriminate H2.
   Qed.
 End Agree.
 
 Theorem marshal_agree_jit : forall e co t v fuel res prog,
-  frag t -> has_type (fok prims_jit) t v -> compile e co t false = COk prog ->
+  0 < MaxInlineDepth co ->
+  frag e t -> compilable e co t -> has_type (fok prims_jit) t v -> compile e co t false = COk prog ->
   std_marshal e Qraw fuel (Some (t, v)) = SOk res -> (need v <= 4096)%nat ->
   agree (encode prims_jit e co std_flags (Some (t, v))) res.
 Proof.
-  intros e co t v fuel res prog Ht Hv Hc Hs Hn.
-  eapply (marshal_agree_frag prims_jit e co jit_i64 jit_u64); try eassumption; try reflexivity.
+  intros e co t v fuel res prog Hin Ht Hcp Hv Hc Hs Hn.
+  eapply (marshal_agree_frag prims_jit e co jit_i64 jit_u64); try eassumption; try reflexivity; try discriminate.
   change (p_stack prims_jit) with 4096%N. lia.
 Qed.
 
 Theorem marshal_agree_vm : forall e co t v fuel res prog,
-  frag t -> has_type (fok prims_vm) t v -> compile e co t false = COk prog ->
+  0 < MaxInlineDepth co ->
+  frag e t -> compilable e co t -> has_type (fok prims_vm) t v -> compile e co t false = COk prog ->
   std_marshal e Qraw fuel (Some (t, v)) = SOk res -> (need v <= 4096)%nat ->
   agree (encode prims_vm e co std_flags (Some (t, v))) res.
 Proof.
-  intros e co t v fuel res prog Ht Hv Hc Hs Hn.
-  eapply (marshal_agree_frag prims_vm e co); try eassumption; try reflexivity.
+  intros e co t v fuel res prog Hin Ht Hcp Hv Hc Hs Hn.
+  eapply (marshal_agree_frag prims_vm e co); try eassumption; try reflexivity; try discriminate.
   change (p_stack prims_vm) with 4096%N. lia.
 Qed.
 
-(* non-vacuity: a slice of pointers to arrays of ints *)
+(* non-vacuity: a slice of pointers to structs holding an array and a string *)
+Definition ex_struct : ty :=
+  TStruct 24 [(0%N, TArray 2 (TPrim KInt16)); (8%N, TPrim KString)]
+    [Field [97%N] 0 (TArray 2 (TPrim KInt16)) [(0%N, false)]; Field [98%N] 0 (TPrim KString) [(8%N, false)]].
+Definition ex_ty : ty := TSlice (TPtr ex_struct).
+Definition ex_val : val := VSlice (Some [VPtr (Some (VStruct [VArr [VInt 7; VInt (-3)]; VStr [120%N; 34%N]])); VPtr None]).
+Definition ex_out : bytes :=
+  [91; 123; 34; 97; 34; 58; 91; 55; 44; 45; 51; 93; 44; 34; 98; 34; 58; 34; 120; 92; 34; 34; 125; 44; 110; 117; 108; 108; 93]%N.
+
 Example frag_example :
-  let t := TSlice (TPtr (TArray 2 (TPrim KInt16))) in
-  let v := VSlice (Some [VPtr (Some (VArr [VInt 7; VInt (-3)])); VPtr None]) in
-  frag t /\ has_type (fok prims_jit) t v /\
-  std_marshal [] Qraw 10 (Some (t, v)) = SOk [91; 91; 55; 44; 45; 51; 93; 44; 110; 117; 108; 108; 93]%N /\
-  encode prims_jit [] default_copts std_flags (Some (t, v)) = Done [91; 91; 55; 44; 45; 51; 93; 44; 110; 117; 108; 108; 93]%N.
+  frag [] ex_ty /\ compilable [] default_copts ex_ty /\ has_type (fok prims_jit) ex_ty ex_val /\
+  std_marshal [] Qraw 10 (Some (ex_ty, ex_val)) = SOk ex_out /\
+  encode prims_jit [] default_copts std_flags (Some (ex_ty, ex_val)) = Done ex_out.
 Proof.
-  cbn zeta. split; [|split; [|split]].
-  - repeat constructor.
+  split; [|split; [|split; [|split]]].
+  - cbn. repeat split; try lia; repeat constructor; eexists; repeat split; cbn; auto.
+  - cbn. split; [|repeat split]. intro pv. destruct pv; eexists; vm_compute; reflexivity.
   - apply HT_slice. intros x [<-|[<-|[]]].
-    + apply HT_ptr. apply HT_arr; [reflexivity|]. intros y [<-|[<-|[]]]; apply HT_int; cbn; lia.
+    + apply HT_ptr. apply HT_struct; [reflexivity|].
+      intros k o t x Hk Hx. destruct k as [|[|k]]; cbn in Hk, Hx.
+      * injection Hk as <- <-. injection Hx as <-. apply HT_arr; [reflexivity|]. intros y [<-|[<-|[]]]; apply HT_int; cbn; lia.
+      * injection Hk as <- <-. injection Hx as <-. apply HT_str.
+      * destruct k; discriminate Hk.
     + apply HT_ptr_nil.
   - vm_compute. reflexivity.
   - vm_compute. reflexivity.
